@@ -142,3 +142,24 @@ Theorem c08_history_alignment : forall W e json (h : list top) i,
   = match hist_align h (S i) with Some a => Some a | None => hist_align h 0%nat end.
 Proof. exact md_history_alignment. Qed.
 Print Assumptions c08_history_alignment.
+
+(* TIED TO THE SOURCE TEXT.  Generated/MarkdownSrc.v is written by tools/go2coq
+   from markdown/markdown.go's mdCellEscape (regenerated from the repository under
+   test on every run, check.py SOURCE_TIES; html.EscapeString and strings.Replace
+   are the assumed library functions of Base/GoLib.v).  For every byte string the
+   translated source returns md_escape s: the same three passes in the same
+   order, with the pattern bytes and entities the source spells out. *)
+From Tab Require Import Base.GoSem Generated.MarkdownSrc Proofs.MarkdownSrcTie.
+
+Theorem c08_source_is_model : forall s, src_mdCellEscape s = Ok (md_escape s).
+Proof. exact src_mdCellEscape_is_model. Qed.
+Print Assumptions c08_source_is_model.
+
+(* c08_neutral for what the translated source returns *)
+Theorem c08_source_neutral : forall s out,
+  src_mdCellEscape s = Ok out ->
+  raw_free out = true
+  /\ decode out = Some s
+  /\ (forall pre post, out = pre ++ 38%N :: post -> starts_entity post).
+Proof. exact src_mdCellEscape_neutral. Qed.
+Print Assumptions c08_source_neutral.
